@@ -24,7 +24,8 @@ Theorem C16_outer_tlv v pad :
   N.of_nat (length v) < two64 -> assemble_outer (v ++ pad) (length pad) = Ok (tlv TYPE_DATA v).
 Proof. exact (assemble_outer_ok v pad). Qed.
 
-(* parse_certificate returns: name = key name / issuer id / version(timestamp), MetaInfo (ContentType KEY, freshness),
+(* parse_certificate, and equally the strict reader of the format (every element inside its parent at every level,
+   Spec/StrictTlv.v), returns: name = key name / issuer id / version(timestamp), MetaInfo (ContentType KEY, freshness),
    content = the key bits, SignatureInfo = what the signer wrote + ValidityPeriod holding the 15-octet UTC text of the
    two requested instants, SignatureValue = what the signer wrote.  t0/t1 are the UTC fields of the requested instants;
    the restriction to years >= 1000 is that of strftime('%Y') (no zero padding below) *)
@@ -36,7 +37,9 @@ Theorem C16_fields sign a m kn :
     bdt_to_secs t0 = instant_of (c_start a) /\ bdt_to_secs t1 = instant_of (c_end a) /\
     valid_bdt t0 = true /\ valid_bdt t1 = true /\
     (match c_signer a with Some _ => sv = Some (sign (m_sig_covered m)) | None => sv = None end) /\
-    (1000 <= t_year t0 -> 1000 <= t_year t1 -> dec_cert (m_wire m) = Ok (issued_values a kn n t0 t1 sv)).
+    (1000 <= t_year t0 -> 1000 <= t_year t1 ->
+     dec_cert (m_wire m) = Ok (issued_values a kn n t0 t1 sv) /\
+     strict_cert (m_wire m) = Ok (issued_values a kn n t0 t1 sv)).
 Proof. exact (new_cert_fields sign a m kn). Qed.
 Print Assumptions C16_fields.
 
